@@ -227,7 +227,7 @@ def slice (a start stop step : V) : Except Err V :=
         match a with
         | undef | silent | none => .ok (seq [])
         | seq xs => match MJ.Slice.slice xs st sp sp' with
-          | .ok (.ok ys) => .ok (seq ys)
+          | .ok (.ok _) => .error (.unsupported "lazy iterable (slice of a list)")
           | .ok .zeroStep => .error .invalidOperation
           | .panic => .error (.unsupported "slice panic")
         | str s => match MJ.Slice.slice (chars s) st sp sp' with
@@ -249,14 +249,15 @@ def arith (op : ArOp) (a b : V) : Except Err V :=
   | _, _ =>
     match op, a, b with
     | .add, str x, str y => .ok (str (x ++ y))
-    | .add, seq x, seq y => .ok (seq (x ++ y))
+    | .add, seq _, seq _ => .error (.unsupported "lazy iterable (list concatenation)")
     | .mul, str x, n | .mul, n, str x =>
         match asNum? n with
         | some k => if k < 0 then .error .invalidOperation else .ok (str (String.join (repeatList [x] k.toNat)))
         | Option.none => .error .invalidOperation
     | .mul, seq x, n | .mul, n, seq x =>
         match asNum? n with
-        | some k => if k < 0 then .error .invalidOperation else .ok (seq (repeatList x k.toNat))
+        | some k => if k < 0 then .error .invalidOperation else
+            (fun (_ : List V) => .error (.unsupported "lazy iterable (list repetition)")) x
         | Option.none => .error .invalidOperation
     | _, _, _ => .error .invalidOperation
 
@@ -346,9 +347,9 @@ def mapInvalid : Except Err Unit → Except Err Unit
   | .error _ => .error .invalidOperation
 
 def minBy (xs : List V) (gt : Bool) : V :=
-  xs.foldl (fun acc x => match acc with
-    | .undef => x
-    | a => if (V.cmp x a == (if gt then .gt else .lt)) then x else a) .undef
+  match xs with
+  | [] => .undef
+  | x :: r => r.foldl (fun a y => if (V.cmp y a == (if gt then .gt else .lt)) then y else a) x
 
 def sumInts : List V → Int → Except Err V
   | [], acc => .ok (.int acc)
@@ -611,7 +612,8 @@ def exec (i : Instr) (s : St) : Except Err St :=
   | .iterate t, st =>
       match s.frames with
       | f :: fr => match f.loop with
-        | some (x :: xs, n) => .ok { s with stack := x :: st, frames := { f with loop := some (xs, n + 1) } :: fr }.next
+        | some (x :: xs, n) =>       -- `next_loop_item` clears the locals: every iteration is a scope of its own
+            .ok { s with stack := x :: st, frames := { locals := [], loop := some (xs, n + 1) } :: fr }.next
         | some ([], n) => .ok { s with pc := t, frames := { f with loop := some ([], n + 1) } :: fr }
         | Option.none => .error .stack
       | [] => .error .stack
